@@ -1,4 +1,5 @@
 import MahfModel.Model.Objective
+import MahfModel.Model.ObjectiveOrd
 open MahfModel MahfModel.Sexp MahfModel.Objective
 
 /-! Driver for C09: `agree` = code-shaped model reproduces the implementation's output,
@@ -44,7 +45,8 @@ def caseConst (impl : Sexp) : Verdict :=
 
 def cmpOut (lt le gt ge eq : Bool) (p : Sexp) (c : Sexp) : Sexp :=
   .list [tag "lt" [ofBool lt], tag "le" [ofBool le], tag "gt" [ofBool gt], tag "ge" [ofBool ge],
-         tag "eq" [ofBool eq], tag "pcmp" [p], tag "cmp" [c]]
+         tag "eq" [ofBool eq], tag "pcmp" [p], tag "cmp" [c], tag "ne" [ofBool (!eq)], tag "rcmp" [c],
+         tag "rlt" [ofBool lt]]
 
 def caseCmp (x y : UInt64) (impl : Sexp) : Verdict :=
   let a := Objective.ofBits x
@@ -60,8 +62,8 @@ def caseCmp (x y : UInt64) (impl : Sexp) : Verdict :=
     let spec := cmpOut (sp == some .lt) (sp == some .lt || sp == some .eq) (sp == some .gt)
       (sp == some .gt || sp == some .eq) (sp == some .eq) (optOrdSexp sp) (optOrdSexp sp)
     let panicked := match impl with
-      | .list [_, _, _, _, _, _, .list [.atom "cmp", .atom "panic"]] => true
-      | _ => false
+      | .list (_ :: _ :: _ :: _ :: _ :: _ :: .list [.atom "cmp", .atom "panic"] :: _) => true
+      | _ => ((toString impl).splitOn "panic").length > 1
     verdict (Sexp.beq model impl) (Sexp.beq spec impl) (if panicked then "panic" else "order") model
 
 def caseOp (op : String) (x : UInt64) (y : Option UInt64) (impl : Sexp) : Option Verdict := do
@@ -81,7 +83,8 @@ def caseOp (op : String) (x : UInt64) (y : Option UInt64) (impl : Sexp) : Option
   | .list [.list [.atom "r", r], .list [.atom "cmp", .atom later]] =>
     let rb ← bits? r
     let rc := cls (Objective.ofBits rb)
-    let agree := rc == c && later == (if c == .nan then "panic" else "ok")
+    -- what `cmp` does on a NaN result (panic today) is not pinned: the NaN itself is already the recorded finding
+    let agree := rc == c && (c == .nan || later == "ok")
     let holds := rc.legal && later == "ok"
     pure (verdict agree holds (if rc.legal then "panic" else clsName rc) model)
   | _ => pure (verdict false false "badout" model)
@@ -201,7 +204,8 @@ def caseMTry (xs : List UInt64) (impl : Sexp) : Verdict :=
 
 def mcmpOut (eq : Bool) (p : Option Ordering) : Sexp :=
   .list [tag "eq" [ofBool eq], tag "pcmp" [optOrdSexp p], tag "lt" [ofBool (p == some .lt)],
-         tag "gt" [ofBool (p == some .gt)]]
+         tag "gt" [ofBool (p == some .gt)], tag "le" [ofBool (p == some .lt || p == some .eq)],
+         tag "ge" [ofBool (p == some .gt || p == some .eq)], tag "ne" [ofBool (!eq)]]
 
 def caseMCmp (xs ys : List UInt64) (impl : Sexp) : Verdict :=
   let a := xs.map Objective.ofBits
@@ -229,6 +233,326 @@ def caseMTrip (xs ys zs : List UInt64) (impl : Sexp) : Verdict :=
       | _ => false
     verdict (Sexp.beq model impl) holds "order" model
 
+/-! ### users of the order (std, `BestIndividual`) -/
+
+/-- An element of an input list: position, bit pattern, value. -/
+structure El where
+  ix : Nat
+  bits : UInt64
+  v : F64
+  deriving Inhabited
+
+def mkEls (xs : List UInt64) : List El :=
+  (xs.zip (List.range xs.length)).map fun (b, i) => { ix := i, bits := b, v := Objective.ofBits b }
+
+/-- The three questions, answered by the code-shaped model or by the numeric order. -/
+structure Oracle where
+  lt : F64 → F64 → Bool
+  le : F64 → F64 → Bool
+  eq : F64 → F64 → Bool
+
+def codeO : Oracle := { lt := objLt, le := objLe, eq := objEq }
+def specO : Oracle :=
+  { lt := fun a b => valueCmp a b == some .lt
+    le := fun a b => valueCmp a b == some .lt || valueCmp a b == some .eq
+    eq := fun a b => valueCmp a b == some .eq }
+
+def allLegal (xs : List UInt64) : Bool := xs.all fun b => legal (Objective.ofBits b)
+
+def isPermOfRange (out : List Nat) (n : Nat) : Bool := natSort out == List.range n
+
+def adjacent {α : Type} (r : α → α → Bool) : List α → Bool
+  | x :: y :: rest => r x y && adjacent r (y :: rest)
+  | _ => true
+
+def optNat? : Sexp → Option (Option Nat)
+  | .atom "none" => some none
+  | .list [.atom "some", n] => (nat? n).map some
+  | _ => none
+
+def optNatSexp : Option Nat → Sexp
+  | none => .atom "none"
+  | some n => .list [.atom "some", ofNat n]
+
+/-- first of the minima (documented for `Iterator::min`, `min_by`, `min_by_key`) -/
+def firstMinOk (o : Oracle) (vals : Array F64) (r : Option Nat) : Bool :=
+  match r with
+  | none => vals.size == 0
+  | some i => i < vals.size && (List.range vals.size).all fun j =>
+      o.le (vals.getD i .nan) (vals.getD j .nan) && (j ≥ i || o.lt (vals.getD i .nan) (vals.getD j .nan))
+
+/-- last of the maxima (documented for `Iterator::max`, `max_by`, `max_by_key`) -/
+def lastMaxOk (o : Oracle) (vals : Array F64) (r : Option Nat) : Bool :=
+  match r with
+  | none => vals.size == 0
+  | some i => i < vals.size && (List.range vals.size).all fun j =>
+      o.le (vals.getD j .nan) (vals.getD i .nan) && (j ≤ i || o.lt (vals.getD j .nan) (vals.getD i .nan))
+
+/-- some minimum (tie-agnostic): what a /repo-level user such as `best_individual` owes C09 -/
+def anyMinOk (o : Oracle) (vals : Array F64) (r : Option Nat) : Bool :=
+  match r with
+  | none => vals.size == 0
+  | some i => i < vals.size && (List.range vals.size).all fun j => o.le (vals.getD i .nan) (vals.getD j .nan)
+
+/-- the unique result of a stable sort, as positions -/
+def stableIdxOk (o : Oracle) (rev : Bool) (vals : Array F64) (out : List Nat) : Bool :=
+  isPermOfRange out vals.size && adjacent (fun a b =>
+    let x := vals.getD a .nan
+    let y := vals.getD b .nan
+    (if rev then o.lt y x else o.lt x y) || (o.eq x y && a < b)) out
+
+def sortedIdxOk (o : Oracle) (vals : Array F64) (out : List Nat) : Bool :=
+  isPermOfRange out vals.size && adjacent (fun a b => o.le (vals.getD a .nan) (vals.getD b .nan)) out
+
+def permBits (xs out : List UInt64) : Bool := natSort (out.map (·.toNat)) == natSort (xs.map (·.toNat))
+
+def sortedBitsOk (o : Oracle) (xs out : List UInt64) : Bool :=
+  permBits xs out && adjacent (fun a b => o.le (Objective.ofBits a) (Objective.ofBits b)) out
+
+def isZeroBits (b : UInt64) : Bool := b.toNat % 2 ^ 63 == 0
+
+/-- Stable sort of bare values: ascending, and the only distinct patterns of equal value — the two
+zeros (`cmp_eq_iff_bits`) — keep their input order. -/
+def stableBitsOk (o : Oracle) (xs out : List UInt64) : Bool :=
+  sortedBitsOk o xs out && out.filter isZeroBits == xs.filter isZeroBits
+
+def selectNthOk (o : Oracle) (vals : Array F64) (k : Nat) (out : List Nat) : Bool :=
+  let arr := out.toArray
+  let pivot := vals.getD (arr.getD k 0) .nan
+  isPermOfRange out vals.size && k < vals.size &&
+    (List.range vals.size).all fun pos =>
+      let x := vals.getD (arr.getD pos 0) .nan
+      if pos < k then o.le x pivot else if pos > k then o.le pivot x else true
+
+/-- members of a set built from `xs`: strictly ascending, drawn from `xs`, covering every value of `xs`;
+with `first`, the representative of a value is the first pattern inserted with that value -/
+def setOk (o : Oracle) (first : Bool) (xs out : List UInt64) : Bool :=
+  let val := Objective.ofBits
+  adjacent (fun a b => o.lt (val a) (val b)) out &&
+  out.all (fun b => xs.contains b) &&
+  xs.all (fun x => out.any fun b => o.eq (val b) (val x)) &&
+  (!first || out.all fun b => (xs.find? fun x => o.eq (val x) (val b)) == some b)
+
+def flagsOk (o : Oracle) (vals : Array F64) (flags : List Bool) : Bool :=
+  flags.length == vals.size &&
+  (flags.zip (List.range vals.size)).all fun (f, i) =>
+    f == !((List.range i).any fun j => o.eq (vals.getD j .nan) (vals.getD i .nan))
+
+def mapOk (o : Oracle) (xs : List UInt64) (vals : Array F64) (out : List (UInt64 × Nat)) : Bool :=
+  setOk o true xs (out.map (·.1)) &&
+  out.all fun (kb, i) =>
+    i < vals.size && o.eq (vals.getD i .nan) (Objective.ofBits kb) &&
+    (List.range vals.size).all fun j => j ≤ i || !o.eq (vals.getD j .nan) (Objective.ofBits kb)
+
+def bsearchOk (o : Oracle) (xs sorted : List UInt64) (needle : F64) (r : Sexp) : Bool :=
+  let sv := (sorted.map Objective.ofBits).toArray
+  sortedBitsOk o xs sorted &&
+  match r with
+  | .list [.atom "ok", i] =>
+    match nat? i with
+    | some i => i < sv.size && o.eq (sv.getD i .nan) needle
+    | none => false
+  | .list [.atom "err", i] =>
+    match nat? i with
+    | some i => i ≤ sv.size && (List.range sv.size).all fun pos =>
+        if pos < i then o.lt (sv.getD pos .nan) needle else o.lt needle (sv.getD pos .nan)
+    | none => false
+  | _ => false
+
+def dedupO (o : Oracle) : List UInt64 → List UInt64
+  | [] => []
+  | x :: xs => x :: go x xs
+where
+  go (last : UInt64) : List UInt64 → List UInt64
+    | [] => []
+    | y :: ys =>
+      if o.eq (Objective.ofBits y) (Objective.ofBits last) then go last ys else y :: go y ys
+
+def lexO (o : Oracle) : List F64 → List F64 → Ordering
+  | [], [] => .eq
+  | [], _ :: _ => .lt
+  | _ :: _, [] => .gt
+  | x :: xs, y :: ys => if o.lt x y then .lt else if o.lt y x then .gt else lexO o xs ys
+
+def sliceEqO (o : Oracle) : List F64 → List F64 → Bool
+  | [], [] => true
+  | x :: xs, y :: ys => o.eq x y && sliceEqO o xs ys
+  | _, _ => false
+
+def outToSexp {α : Type} (f : α → Sexp) : Outcome α → Sexp
+  | .ok a => f a
+  | .panic => .atom "panic"
+
+def idxSexp (l : List El) : Sexp := ofNats (l.map (·.ix))
+def bitsSexp (l : List El) : Sexp := .list (l.map fun e => Sexp.ofBits e.bits)
+def optElSexp (o : Option El) : Sexp := optNatSexp (o.map (·.ix))
+
+/-- programs are evaluated up to this length (they nest one `bind` per element) -/
+def progLimit : Nat := 64
+
+def pairs? : Sexp → Option (List (UInt64 × Nat))
+  | .list xs => xs.mapM fun
+      | .list [k, i] => do pure ((← bits? k), (← nat? i))
+      | _ => none
+  | _ => none
+
+/-- `(std <op> (xs …) [arg])` -/
+def caseStd (op : String) (xs : List UInt64) (arg : Option Sexp) (impl : Sexp) : Option Verdict := do
+  if !allLegal xs then return verdict (Sexp.beq (.atom "illegal") impl) true "-" (.atom "illegal")
+  let els := mkEls xs
+  let vals := (els.map (·.v)).toArray
+  let small := xs.length ≤ progLimit
+  let key : El → F64 := El.v
+  -- `pred o` is the documented result of the operation under the order `o`; `prog` the same operation as a
+  -- comparison program run against the code-shaped model
+  let (pred, prog) : (Oracle → Bool) × Option Sexp ←
+    if op == "min" || op == "min_by_key" || op == "min_by_key_ref" || op == "min_by" || op == "tuple_min" then
+      some (fun o => match optNat? impl with | some r => firstMinOk o vals r | none => false,
+        some (outToSexp optElSexp ((pMin els).run key)))
+    else if op == "max" || op == "max_by_key" || op == "max_by_key_ref" || op == "max_by" || op == "tuple_max" then
+      some (fun o => match optNat? impl with | some r => lastMaxOk o vals r | none => false,
+        some (outToSexp optElSexp ((pMax els).run key)))
+    else if op == "sort" then
+      some (fun o => match bitsList? impl with | some out => stableBitsOk o xs out | none => false,
+        if small then some (outToSexp bitsSexp ((pSort false els).run key)) else none)
+    else if op == "sort_by" || op == "sort_by_key" || op == "sort_by_cached_key" || op == "tuple_sort" then
+      some (fun o => match nats? impl with | some out => stableIdxOk o false vals out | none => false,
+        if small then some (outToSexp idxSexp ((pSort false els).run key)) else none)
+    else if op == "sort_rev" then
+      some (fun o => match nats? impl with | some out => stableIdxOk o true vals out | none => false,
+        if small then some (outToSexp idxSexp ((pSort true els).run key)) else none)
+    else if op == "sort_unstable" || op == "heap" then
+      some (fun o => match bitsList? impl with | some out => sortedBitsOk o xs out | none => false, none)
+    else if op == "sort_unstable_by" || op == "sort_unstable_by_key" then
+      some (fun o => match nats? impl with | some out => sortedIdxOk o vals out | none => false, none)
+    else if op == "select_nth" then
+      let k ← arg.bind nat?
+      some (fun o => match nats? impl with | some out => selectNthOk o vals k out | none => false, none)
+    else if op == "btree_collect" then
+      some (fun o => match bitsList? impl with | some out => setOk o false xs out | none => false, none)
+    else if op == "btree_insert" then
+      some (fun o => match impl with
+          | .list [.list (.atom "set" :: s), .list (.atom "flags" :: fl)] =>
+            match s.mapM bits?, fl.mapM bool? with
+            | some out, some flags => setOk o true xs out && flagsOk o vals flags
+            | _, _ => false
+          | _ => false,
+        if small then some (outToSexp (fun r : List El × List Bool =>
+          .list [tag "set" (r.1.map fun e => Sexp.ofBits e.bits), tag "flags" (r.2.map ofBool)]) ((pSet els).run key))
+        else none)
+    else if op == "btree_map" then
+      some (fun o => match pairs? impl with | some out => mapOk o xs vals out | none => false,
+        if small then some (outToSexp (fun r : List (El × El) =>
+          .list (r.map fun e => .list [Sexp.ofBits e.1.bits, ofNat e.2.ix])) ((pMap els).run key))
+        else none)
+    else if op == "binary_search" then
+      let nb ← arg.bind bits?
+      let needle := Objective.ofBits nb
+      if !legal needle then none
+      else some (fun o => match impl with
+          | .list [.list (.atom "sorted" :: s), r] =>
+            match s.mapM bits? with
+            | some sorted => bsearchOk o xs sorted needle r
+            | none => false
+          | _ => false, none)
+    else if op == "dedup" then
+      some (fun o => Sexp.beq (.list ((dedupO o xs).map Sexp.ofBits)) impl,
+        some (outToSexp bitsSexp ((pDedup els).run key)))
+    else none
+  let agree := match prog with
+    | some m => Sexp.beq m impl
+    | none => pred codeO
+  let model := match prog with
+    | some m => m
+    | none => .atom "any-legal-witness"
+  pure (verdict agree (pred specO) (if Sexp.beq impl (.atom "panic") then "panic" else "order") model)
+
+/-- `(ord2 a b)`: the provided `Ord::min` / `Ord::max` (by value, through `std::cmp`, through references).
+Which of two equal arguments comes back is std's documented choice (the model makes it), not part of C09:
+the result must be one of the two arguments and bound both. -/
+def caseOrd2 (x y : UInt64) (impl : Sexp) : Verdict :=
+  let a : El := { ix := 0, bits := x, v := Objective.ofBits x }
+  let b : El := { ix := 1, bits := y, v := Objective.ofBits y }
+  if !(legal a.v && legal b.v) then verdict (Sexp.beq (.atom "illegal") impl) true "-" (.atom "illegal")
+  else
+    let out (mn mx : Sexp) : Sexp :=
+      .list [tag "min" [mn], tag "max" [mx], tag "cmin" [mn], tag "cmax" [mx], tag "rmin" [mn], tag "rmax" [mx]]
+    let elS : El → Sexp := fun e => Sexp.ofBits e.bits
+    let model := out (outToSexp elS ((pOrdMin a b).run El.v)) (outToSexp elS ((pOrdMax a b).run El.v))
+    let sel (o : Oracle) (isMin : Bool) (s : Sexp) : Bool :=
+      match s with
+      | .list [_, r] =>
+        match bits? r with
+        | some rb =>
+          let rv := Objective.ofBits rb
+          (rb == x || rb == y) &&
+            (if isMin then o.le rv a.v && o.le rv b.v else o.le a.v rv && o.le b.v rv)
+        | none => false
+      | _ => false
+    let pred (o : Oracle) : Bool := match impl with
+      | .list [mn, mx, cmn, cmx, rmn, rmx] =>
+        sel o true mn && sel o false mx && sel o true cmn && sel o false cmx && sel o true rmn && sel o false rmx
+      | _ => false
+    let panicked := ((toString impl).splitOn "panic").length > 1
+    verdict (pred codeO) (pred specO) (if panicked then "panic" else "order") model
+
+/-- `(clamp a lo hi)`: with `lo <= hi` the result is one of the three arguments, lies between the bounds and has the
+value of `a` when `a` does. `lo > hi` is the documented precondition violation of `clamp` (std panics): nothing is
+demanded of the code there. -/
+def caseClamp (x l h : UInt64) (impl : Sexp) : Verdict :=
+  let a : El := { ix := 0, bits := x, v := Objective.ofBits x }
+  let lo : El := { ix := 1, bits := l, v := Objective.ofBits l }
+  let hi : El := { ix := 2, bits := h, v := Objective.ofBits h }
+  if !(legal a.v && legal lo.v && legal hi.v) then verdict (Sexp.beq (.atom "illegal") impl) true "-" (.atom "illegal")
+  else
+    let model := outToSexp (fun e : El => Sexp.ofBits e.bits) ((pClamp a lo hi).run El.v)
+    let pred (o : Oracle) : Option Bool :=
+      if o.lt hi.v lo.v then none
+      else some (match bits? impl with
+        | some rb =>
+          let rv := Objective.ofBits rb
+          (rb == x || rb == l || rb == h) && o.le lo.v rv && o.le rv hi.v &&
+            (o.lt a.v lo.v || o.lt hi.v a.v || o.eq rv a.v)
+        | none => false)
+    let agree := match pred codeO with
+      | some ok => ok
+      | none => Sexp.beq model impl
+    verdict agree ((pred specO).getD true) (if Sexp.beq impl (.atom "panic") then "panic" else "order") model
+
+/-- `(lex (xs …) (ys …))`: lexicographic `Ord` / `PartialOrd` / `PartialEq` of slices of objectives -/
+def caseLex (xs ys : List UInt64) (impl : Sexp) : Verdict :=
+  if !(allLegal xs && allLegal ys) then verdict (Sexp.beq (.atom "illegal") impl) true "-" (.atom "illegal")
+  else
+    let a := mkEls xs
+    let b := mkEls ys
+    let out (c : Sexp) (p : Option Ordering) (e : Bool) : Sexp :=
+      .list [tag "cmp" [c], tag "pcmp" [optOrdSexp p], tag "eq" [ofBool e], tag "lt" [ofBool (p == some .lt)],
+             tag "le" [ofBool (p == some .lt || p == some .eq)]]
+    let model := match (pLexP a b).run El.v, (pSliceEq a b).run El.v with
+      | .ok p, .ok e => out (outOrdSexp ((pLex a b).run El.v)) p e
+      | _, _ => .atom "panic"
+    let so := lexO specO (a.map (·.v)) (b.map (·.v))
+    let spec := out (ordSexp so) (some so) (sliceEqO specO (a.map (·.v)) (b.map (·.v)))
+    let panicked := ((toString impl).splitOn "panic").length > 1
+    verdict (Sexp.beq model impl) (Sexp.beq spec impl) (if panicked then "panic" else "order") model
+
+/-- `(best (xs …))`: `BestIndividual::best_individual` on a `Vec` and on a slice of individuals. Which of several
+individuals with the same objective value is returned is not C09's business. -/
+def caseBest (xs : List UInt64) (impl : Sexp) : Verdict :=
+  if !allLegal xs then verdict (Sexp.beq (.atom "illegal") impl) true "-" (.atom "illegal")
+  else
+    let els := mkEls xs
+    let vals := (els.map (·.v)).toArray
+    let pred (o : Oracle) : Bool := match impl with
+      | .list [.list [.atom "vec", r1], .list [.atom "slice", r2]] =>
+        match optNat? r1, optNat? r2 with
+        | some a, some b => anyMinOk o vals a && anyMinOk o vals b
+        | _, _ => false
+      | _ => false
+    let m := outToSexp optElSexp ((pMin els).run El.v)
+    verdict (pred codeO) (pred specO) (if Sexp.beq impl (.atom "panic") then "panic" else "order")
+      (.list [tag "vec" [m], tag "slice" [m]])
+
 def c09 (input implOut : Sexp) : Option Verdict :=
   match input with
   | .list [.atom "try", x] => do caseTry (← bits? x) implOut
@@ -240,6 +564,13 @@ def c09 (input implOut : Sexp) : Option Verdict :=
   | .list [.atom "sort", xs] => do caseSort (← bitsList? xs) implOut
   | .list [.atom "mtry", xs] => do caseMTry (← bitsList? xs) implOut
   | .list [.atom "mcmp", xs, ys] => do caseMCmp (← bitsList? xs) (← bitsList? ys) implOut
+  | .list [.atom "ord2", x, y] => do caseOrd2 (← bits? x) (← bits? y) implOut
+  | .list [.atom "clamp", x, l, h] => do caseClamp (← bits? x) (← bits? l) (← bits? h) implOut
+  | .list [.atom "lex", .list (.atom "xs" :: xs), .list (.atom "ys" :: ys)] => do
+    caseLex (← xs.mapM bits?) (← ys.mapM bits?) implOut
+  | .list [.atom "std", .atom op, .list (.atom "xs" :: xs)] => do caseStd op (← xs.mapM bits?) none implOut
+  | .list [.atom "std", .atom op, .list (.atom "xs" :: xs), arg] => do caseStd op (← xs.mapM bits?) (some arg) implOut
+  | .list [.atom "best", .list (.atom "xs" :: xs)] => do caseBest (← xs.mapM bits?) implOut
   | .list [.atom "mtrip", xs, ys, zs] => do caseMTrip (← bitsList? xs) (← bitsList? ys) (← bitsList? zs) implOut
   | _ => none
 
